@@ -182,7 +182,22 @@ pub fn check_epoch(rep: &mut Rep, w: &World, c: i128, s: TimeScale, nextprev: bo
             (n, p, n.weekday(), p.weekday(), e.next_weekday_at_midnight(target), e.next_weekday_at_noon(target), e.previous_weekday_at_midnight(target), e.previous_weekday_at_noon(target))
         }) {
             Err(p) => rep.fail(&format!("next-prev/panic/{}", p.class()), None, || format!("{}.next/previous({:?}) panicked: {} at {}", det(), target, p.msg, p.loc)),
-            Ok((nx, pv, nwd, pwd, _m1, _m2, _m3, _m4)) => {
+            Ok((nx, pv, nwd, pwd, m1, m2, m3, m4)) => {
+                // _at_midnight / _at_noon: for epochs at or after the reference of a scale whose zero is a midnight,
+                // the result is the day of next()/previous() at 00:00:00 / 12:00:00 of the scale's own count
+                if c >= 0 && !is_dyn(s) {
+                    let fwd0 = { let f = ((k as i32 - want_tai as i32).rem_euclid(7)) as i128; if f == 0 { 7 } else { f } };
+                    let bwd0 = { let b = ((want_tai as i32 - k as i32).rem_euclid(7)) as i128; if b == 0 { 7 } else { b } };
+                    let day_n = (c + fwd0 * NS_D).div_euclid(NS_D) * NS_D;
+                    let day_p = (c - bwd0 * NS_D).div_euclid(NS_D) * NS_D;
+                    if c - bwd0 * NS_D >= 0 {
+                        for (name, g, wv) in [("next_weekday_at_midnight", m1, day_n), ("next_weekday_at_noon", m2, day_n + 12 * NS_H), ("previous_weekday_at_midnight", m3, day_p), ("previous_weekday_at_noon", m4, day_p + 12 * NS_H)] {
+                            if g.time_scale != s || count_d(g.duration) != wv {
+                                rep.fail(&format!("{name}/value"), None, || format!("{}.{name}({:?}) = ({}, {:?}), want count {}", det(), target, count_d(g.duration), g.time_scale, wv));
+                            }
+                        }
+                    }
+                }
                 let fwd = ((k as i32 - want_tai as i32).rem_euclid(7)) as i128;
                 let fwd = if fwd == 0 { 7 } else { fwd };
                 let bwd = ((want_tai as i32 - k as i32).rem_euclid(7)) as i128;
